@@ -179,17 +179,17 @@ type tccWithCtxVal struct {
 }
 
 type tccParamSpec struct {
-	Kind string          `json:"kind"` // nil tagged tagged_ptr nested ctx_ptr ctx_ptr_nil ctx_val bac bac_ptr bac_ptr_nil int string map anon_ab anon_fba local_1 local_2
-	A    int64           `json:"a"`
-	B    string          `json:"b"`
-	C    float64         `json:"c"`
-	F    bool            `json:"f"`
-	N    tccNested       `json:"n"`
-	M    map[string]int  `json:"m"`
-	L    []int64         `json:"l"`
-	PI   *int64          `json:"pi"`
-	PN   *tccNested      `json:"pn"`
-	I    json.RawMessage `json:"i"`
+	Kind string                 `json:"kind"` // nil tagged tagged_ptr nested ctx_ptr ctx_ptr_nil ctx_val bac bac_ptr bac_ptr_nil int string map anon_ab anon_fba local_1 local_2
+	A    int64                  `json:"a"`
+	B    string                 `json:"b"`
+	C    float64                `json:"c"`
+	F    bool                   `json:"f"`
+	N    tccNested              `json:"n"`
+	M    map[string]int         `json:"m"`
+	L    []int64                `json:"l"`
+	PI   *int64                 `json:"pi"`
+	PN   *tccNested             `json:"pn"`
+	I    json.RawMessage        `json:"i"`
 	Pre  map[string]interface{} `json:"pre"` // pre-filled ActionContext of a caller-supplied BusinessActionContext
 }
 
